@@ -73,6 +73,9 @@ def show_ty(t):
     if isinstance(t, tuple) and t[0] == "List":
         inner = show_ty(t[1])
         return f"List {inner}" if " " not in inner else f"List ({inner})"
+    if isinstance(t, tuple) and t[0] == "Pair":
+        inner = show_ty(t[1])
+        return f"Int × {inner}" if " " not in inner else f"Int × ({inner})"
     raise Unsupported(f"type {t}")
 
 
@@ -289,6 +292,19 @@ class FnTranslator:
         """an iterable: `range(...)` or a list-typed expression"""
         if isinstance(it, ast.Call) and isinstance(it.func, ast.Name) and it.func.id == "range":
             return self.range_call(it, env)
+        if isinstance(it, ast.Call) and isinstance(it.func, ast.Name) and it.func.id in ("permutations", "combinations") \
+                and not it.keywords and 1 <= len(it.args) <= 2:
+            # itertools.permutations(l[, r]) / combinations(l, r): lists of lists, in itertools' order
+            b, c, t = self.iter_expr(it.args[0], env)
+            unify(t, ("List", "Int"))
+            if len(it.args) == 2:
+                b2, c2, t2 = self._expr(it.args[1], env)
+                unify(t2, "Int")
+                fn = "pyPermutationsR" if it.func.id == "permutations" else "pyCombinations"
+                return b + b2, f"({fn} {c} {c2})", ("List", ("List", "Int"))
+            if it.func.id != "permutations":
+                raise Unsupported("combinations without r")
+            return b, f"(pyPermutations {c})", ("List", ("List", "Int"))
         b, c, t = self._expr(it, env)
         et = Cell()
         unify(t, ("List", et))
@@ -356,6 +372,21 @@ class FnTranslator:
                 b, c, t = self.iter_expr(n.args[0], env)
                 unify(t, ("List", "Int"))
                 return b, f"(pySorted {c})", ("List", "Int")
+            if name in ("any", "all") and len(n.args) == 1 and isinstance(n.args[0], ast.GeneratorExp) and not n.keywords:
+                ge = n.args[0]
+                if len(ge.generators) != 1 or ge.generators[0].ifs or not isinstance(ge.generators[0].target, ast.Name):
+                    raise Unsupported("any/all generator")
+                # any()/all() short-circuit: a raising element after the deciding one is never evaluated -> monadic fold
+                b_it, c_it, t_it = self.iter_expr(ge.generators[0].iter, env)
+                var = ge.generators[0].target.id
+                env2 = dict(env)
+                env2[var] = resolve(t_it)[1]
+                b_el, c_el, t_el = self._expr(ge.elt, env2)
+                unify(t_el, "Bool")
+                v = self.fresh()
+                body = "; ".join(b_el + [f"pure {c_el}"])
+                fn = "pyAnyM" if name == "any" else "pyAllM"
+                return b_it + [f"let {v} ← {fn} (fun {self.nm(var)} => do {body}) {c_it}"], v, "Bool"
             if name in self.sigs:
                 return self.call_sig(self.sigs[name], n, env)
             raise Unsupported(f"call of {name}")
@@ -455,7 +486,9 @@ class FnTranslator:
             elif isinstance(s, ast.For):
                 for x in self.assigned(s.body):
                     add(x)
-                tgt(s.target)
+                for nn in ast.walk(s.target):
+                    if isinstance(nn, ast.Name):
+                        add(nn.id)
             elif isinstance(s, ast.If):
                 for x in self.assigned(s.body) + self.assigned(s.orelse):
                     add(x)
@@ -582,19 +615,50 @@ class FnTranslator:
         raise Unsupported("assignment target")
 
     def for_stmt(self, s, env, ind):
-        if s.orelse or not isinstance(s.target, ast.Name):
-            raise Unsupported("for-else / tuple loop target")
-        b_it, c_it, t_it = self.iter_expr(s.iter, env)
-        var = s.target.id
-        state = [x for x in self.assigned(s.body) if x in env and x != var]
-        env_body = dict(env)
-        env_body[var] = resolve(t_it)[1]
+        if s.orelse:
+            raise Unsupported("for-else")
+        it, target, enum_var = s.iter, s.target, None
+        if isinstance(it, ast.Call) and isinstance(it.func, ast.Name) and it.func.id == "enumerate" and len(it.args) == 1 \
+                and not it.keywords and isinstance(target, ast.Tuple) and len(target.elts) == 2 \
+                and isinstance(target.elts[0], ast.Name):
+            enum_var, target, it = target.elts[0].id, target.elts[1], it.args[0]
+        b_it, c_it, t_it = self.iter_expr(it, env)
         ind2 = ind + "    "
-        body_lines = self.unpack(state, "st", ind2)
+        pre = []
+        env_body = dict(env)
+        if isinstance(target, ast.Name):
+            var = target.id
+            env_body[var] = resolve(t_it)[1]
+            loop_vars = [var]
+        elif isinstance(target, ast.Tuple) and all(isinstance(e, ast.Name) for e in target.elts):
+            # `for a, b, c in <list of lists>`: unpacking raises ValueError unless the arity matches
+            et = Cell()
+            unify(t_it, ("List", ("List", et)))
+            var = self.fresh()
+            env_body[var] = ("List", et)
+            pre.append(f"{ind2}pyAssert ((pyLen {var}) == ({len(target.elts)} : Int))")
+            for k, e in enumerate(target.elts):
+                pre.append(f"{ind2}let {self.nm(e.id)} ← pyGet {var} ({k} : Int)")
+                env_body[e.id] = et
+            loop_vars = [e.id for e in target.elts]
+        else:
+            raise Unsupported("loop target")
+        if enum_var is not None:
+            c_it = f"(pyEnumerate {c_it})"
+            inner_ty = resolve(t_it)[1]
+            pair = self.fresh()
+            pre = [f"{ind2}let {self.nm(enum_var)} : Int := {pair}.1", f"{ind2}let {var if var.startswith('t_') else self.nm(var)} := {pair}.2"] + pre
+            env_body[enum_var] = "Int"
+            loop_vars.append(enum_var)
+            var_decl = (pair, ("Pair", inner_ty))
+        else:
+            var_decl = (var, resolve(t_it)[1])
+        state = [x for x in self.assigned(s.body) if x in env and x not in loop_vars]
+        body_lines = self.unpack(state, "st", ind2) + pre
         inner, _ = self.block(s.body, env_body, ind2, tail=lambda e: self.tuple_code(state))
         body_lines += inner
         L = [ind + x for x in b_it]
-        L.append(("FOLD", ind, state, var, c_it, body_lines, env, resolve(t_it)[1]))
+        L.append(("FOLD", ind, state, var_decl[0], c_it, body_lines, env, var_decl[1]))
         return L
 
     def if_stmt(self, s, env, ind):
@@ -644,7 +708,8 @@ class FnTranslator:
             elif ln[0] == "FOLD":
                 _, ind, state, var, c_it, body, env, vty = ln
                 sty = self.tuple_type(state, env)
-                out.append(f"{ind}let st ← List.foldlM (fun (st : {sty}) ({self.nm(var)} : {show_ty(vty)}) => do")
+                vname = var if var.startswith("t_") else self.nm(var)
+                out.append(f"{ind}let st ← List.foldlM (fun (st : {sty}) ({vname} : {show_ty(vty)}) => do")
                 out += self.render(body)
                 out.append(f"{ind}    ) {self.tuple_code(state)} {c_it}")
                 out += self.unpack(state, "st", ind)
